@@ -134,7 +134,40 @@ PayloadCases ==
                  : kw \in AnyTyped(kf[1], kf[2]) \cup (IF AdmitsExt(kf[1], kf[2]) THEN {"x-ext"} ELSE {})}
           : kf \in KindFlavours}
 
-Export == (IF "payload" \in Families THEN PayloadCases ELSE {}) \cup
+\* ---- whole, valid Swagger documents (C19): every single-member case of every kind, placed at
+\* the end of every nesting chain that starts at the document root
+\* the spine: the vocabulary edges along which whole documents are grown from the root
+Spine == {<<"swagger", "info">>, <<"info", "contact">>, <<"info", "license">>, <<"swagger", "externalDocs">>, <<"swagger", "tags">>,
+          <<"tag", "externalDocs">>, <<"swagger", "paths">>, <<"paths", "/path">>, <<"pathItem", "get">>, <<"pathItem", "parameters">>,
+          <<"operation", "parameters">>, <<"operation", "responses">>, <<"operation", "externalDocs">>, <<"responses", "200">>,
+          <<"responses", "default">>, <<"swagger", "responses">>, <<"swagger", "parameters">>, <<"response", "headers">>,
+          <<"response", "schema">>, <<"parameter", "items">>, <<"parameter", "schema">>, <<"header", "items">>, <<"items", "items">>,
+          <<"swagger", "definitions">>, <<"schema", "properties">>, <<"schema", "items">>, <<"schema", "xml">>,
+          <<"schema", "externalDocs">>, <<"schema", "allOf">>, <<"schema", "additionalProperties">>,
+          <<"swagger", "securityDefinitions">>}
+SpineFrom(k, fl) == {e \in EdgesFrom(k, fl) : <<e.kind, e.kw>> \in Spine}
+\* grow chains forward from the root; a chain never uses the same (kind, keyword) twice
+\* state of the growth: <<chain, kind, fl>>
+RECURSIVE Grow(_, _, _)
+Grow(done, frontier, n) ==
+  IF n = 0 \/ frontier = {} THEN done \cup frontier
+  ELSE LET next == UNION {UNION {{<<Append(st[1], [kind |-> e.kind, fl |-> e.fl, kw |-> e.kw, how |-> e.how]), e.to, f2>>
+                                   : f2 \in FlavoursOf(e.to)}
+                                 : e \in {x \in SpineFrom(st[2], st[3]) :
+                                            /\ \A i \in 1..Len(st[1]) : ~(st[1][i].kind = x.kind /\ st[1][i].kw = x.kw)
+                                            \* at most one schema-in-schema and one items-in-items step
+                                            /\ (x.kind = x.to => \A i \in 1..Len(st[1]) : st[1][i].kind # x.kind \/ i = Len(st[1]) + 1
+                                                                   \/ ~(i < Len(st[1]) /\ st[1][i + 1].kind = x.kind))}}
+                          : st \in frontier}
+       IN  Grow(done \cup frontier, next, n - 1)
+Grown == Grow({}, {<<(<<>>), "swagger", "">>}, MaxChain)
+SingleMembers(k, fl) ==
+  UNION {{<<M(k, kw, c)>> : c \in NFClasses(VTypeOf(k, kw), kw \in RequiredOf(k, fl))} : kw \in Free(k, fl)}
+  \cup (IF AdmitsExt(k, fl) THEN {<<[name |-> "x-ext", vt |-> "any", cls |-> "obj"]>>} ELSE {})
+ValidCases == UNION {{Case("valid", st[1], st[2], st[3], ms) : ms \in SingleMembers(st[2], st[3])} : st \in Grown}
+
+Export == (IF "valid" \in Families THEN ValidCases ELSE {}) \cup
+          (IF "payload" \in Families THEN PayloadCases ELSE {}) \cup
           (IF "single" \in Families THEN Singles ELSE {})
           \cup (IF "pair" \in Families THEN Pairs ELSE {})
           \cup (IF "ext" \in Families THEN Exts ELSE {})
